@@ -1683,3 +1683,50 @@ def dump_complete_rule(ctx, rid, scope, min_instances=2):
                 r.fail(f.qualname, f"store-after-dump:{norm_text(n)[:60]}", f.file, n.lineno, f.name, f"`{norm_text(n)[:80]}` (line {n.lineno}) executes after `{norm_text(call)[:60]}` (line {call.lineno}): the file holds `{name}` without it - the object loaded back is not the one that was saved")
             else:
                 r.ok(f"{f.qualname}: nothing is stored on `{name}` after {norm_text(call)[:40]}")
+
+
+def wrap_flag_owner_rule(ctx, rid, scope, flag="isHeterogeneous", min_instances=4):
+    """A field-or-constant parameter is wrapped for point-wise use by `FeArray.broadcast(A, Ne, nPg, ...)` when it is a field
+    and `FeArray.asfearray(A, True)` when it is one constant; the test that chooses between the two must ask the object the
+    array A belongs to.  For every `if <X>.<flag>:` (locals expanded) whose arms wrap an array `<Y>.<attr>` that way, X and Y
+    are the same object (a sibling cross-check: of the splits of the phase-field model all but two ask `material`; the two
+    that asked the model itself broke as soon as the material, not Gc, was given per element)."""
+    from .flow import Locals
+
+    repo = ctx.repo
+    r = ctx.rule(rid, f"the `{flag}` test that chooses how an array is wrapped (FeArray.broadcast / asfearray) is asked of the object the array belongs to", min_instances=min_instances)
+    for f in sorted(repo.all_functions(), key=lambda f: f.qualname):
+        if not scope(f):
+            continue
+        L = Locals(f.node)
+
+        def owner_of_array(e):
+            e = L.expand(e)
+            while isinstance(e, ast.Subscript):
+                e = e.value
+            if isinstance(e, ast.Attribute):
+                return norm_text(e.value), e.attr
+            return None, None
+
+        for n in walk_no_nested(f.node):
+            if not isinstance(n, ast.If):
+                continue
+            t = L.expand(n.test)
+            if isinstance(t, ast.UnaryOp) and isinstance(t.op, ast.Not):
+                t = t.operand
+            if not (isinstance(t, ast.Attribute) and t.attr == flag):
+                continue
+            tester = norm_text(t.value)
+            wrapped = []
+            for st in list(n.body) + list(n.orelse):
+                for c in ast.walk(st):
+                    if isinstance(c, ast.Call) and (dotted(c.func) or "") in ("FeArray.broadcast", "FeArray.asfearray") and c.args:
+                        o, a = owner_of_array(c.args[0])
+                        if o is not None:
+                            wrapped.append((o, a, c))
+            for o, a, c in wrapped:
+                r.instance(fn=f.qualname)
+                if o == tester:
+                    r.ok(f"{f.qualname}: {o}.{a} wrapped under {tester}.{flag}")
+                else:
+                    r.fail(f.qualname, f"wrap-owner:{a}:{tester}", f.file, n.lineno, f.name, f"`{norm_text(c)[:70]}` wraps `{o}.{a}` under the test `{tester}.{flag}`: whether `{o}.{a}` is a field is a property of `{o}`, not of `{tester}`: when only one of the two is given per element the array is wrapped as a constant (shape (1, 1, Ne, ...)) or the reverse")
